@@ -55,7 +55,9 @@ def timedExpect (st : St) (hist : List Flat) : Option St :=
       | .rd =>
         let a := p.2.2.eval s1
         match hist[p.1 - 1]? with
-        | some f => if a = 0xff0f ∨ a = 0xffff then v else { v with mem := fun x => if x = a then f.read a else v.mem x }
+        | some f =>
+          if a = 0xff0f then { v with ifl := f.ifl } else if a = 0xffff then { v with ie := f.ie }
+          else { v with mem := fun x => if x = a then f.read a else v.mem x }
         | none => v
       | .wr => v) s1.bus
     some (exec i { s1 with bus := view })
